@@ -145,6 +145,8 @@ func runC05(r *Run) {
 	r.Floor("C05.gate", 8)
 
 	// ---- C05.nonce
+	// the account nonce is the replay guard of OLVM transactions: it has to land in the state that is committed
+	checkWithStateInPlace(r, "C05.nonce.persist", "NesterAccountKeeper", "vm.CommitStateDB", "data/balance.Store")
 	checkNonce(r, "(*action/olvm.Transaction).validateEthTx")
 	checkNonce(r, "(*vm.StateTransition).preCheck")
 }
